@@ -35,6 +35,14 @@ class IPRun(symrun.Run):
                 ri = "<%s as %s>" % (v[2], IP)
                 self.log.append(("into_portable", v, ri))
                 return ("portable-of", v, ri)
+            if symrun.is_struct(v) and len(v) > 5 and v[5] in prog.adts and prog.adts[v[5]].get("vis") != "pub":
+                # a private adaptor type with an IntoPortable impl of its own (`struct Registered(MetaType)`): what its impl computes
+                for imp_ in prog.impls_of(IP):
+                    st_ = prog.ty(imp_["self_ty"])
+                    if st_["k"] == "adt" and st_["d"] == v[5]:
+                        fn_ = [it for it in imp_["items"] if it["name"] == "into_portable"]
+                        if fn_ and prog.body(fn_[0]["path"]) is not None:
+                            return absint.run(prog.body(fn_[0]["path"]), 0, {1: v, 2: args[1]}, call=self.handler, prog=prog, inline=True)
             # &'static str -> String is the String conversion
             return ("conv", v) if not (isinstance(v, tuple) and v[:1] == ("conv",)) else v
         if last in ("into", "from") and len(args) == 1 and isinstance(args[0], tuple) and args[0][:1] in (("model",), ("portable-of",)):
@@ -143,6 +151,18 @@ def check(chk, prog, cfg, only=None, helpers=None):
             continue
         adt = prog.adts[st["d"]]
         short = st["d"].split("::")[-1]
+        if adt.get("vis") != "pub" and adt["kind"] == "struct" and len(adt["variants"][0]["fields"]) == 1:
+            # a private one-member adaptor (not a model type): it must do nothing but register its payload
+            r = IPRun(prog, imp["id"])
+            f0 = adt["variants"][0]["fields"][0]["name"]
+            try:
+                v = r.run(b.path, [symrun.struct(prog, st["d"], "self"), REG])
+                ok = v == ("id-of", Sym("self." + f0)) and [x for x in r.log] == [("register_type", Sym("self." + f0))]
+                detail = "private adaptor: into_portable = %s" % symrun.show(v)[:120]
+            except absint.Unrecognised as e:
+                ok, detail = False, "cannot interpret: %s" % e
+            chk.expect(ok, "R2.1", "adaptor:" + short, b.where(), detail, cfg)
+            continue
         out_ty = [it for it in imp["items"] if it["name"] == "Output"]
         if out_ty:
             ot = prog.ty(out_ty[0]["ty"])
